@@ -185,7 +185,7 @@ PROPS["C01"] = {
 _MW = "xdis.marsh:_Marshaller."
 PROPS["C14"] = {
     "level": "proof",
-    "contracts": [("contracts.marsh", _MW + n) for n in ("w_long", "w_short", "w_long64", "dump_int", "dump_long")]
+    "contracts": [("contracts.marsh", _MW + n) for n in ("w_long", "w_short", "w_long64", "dump_int", "dump_long", "dump_float")]
                  + [("contracts.marsh", "xdis.marsh:" + n) for n in ("_r_short", "_r_long", "_r_long64")],
     "bounded": [("ground.marsh_diff", "check")],
     "assumptions": [],
@@ -195,7 +195,7 @@ PROPS["C13"] = {
     "level": "proof",
     "contracts": [("contracts.writer", "xdis.load:write_bytecode_file"), ("contracts.writer", "xdis.load:write_bytecode_file/out-of-range"),
                   ("contracts.writer", "xdis.marsh:_Marshaller.dump_code3"), ("contracts.writer", "xdis.marsh:_Marshaller.dump_code3/refuses-3.11")]
-                 + [("contracts.marsh", _MW + n) for n in ("w_long", "w_short", "dump_long")],
+                 + [("contracts.marsh", _MW + n) for n in ("w_long", "w_short", "dump_long", "dump_float")],
     "bounded": [("ground.pyc_roundtrip", "check")],
     "assumptions": [],
 }
